@@ -109,6 +109,8 @@ class IO(object):
         try:
             self.socket = context.wrap_socket(self.socket,
                                               server_hostname=hostname)
+            # Nothing received in clear text may be used after the handshake.
+            self.recv_buffer = b''
             return True
         except SSLError as exc:
             log.error(self.socket, exc, self.address)
@@ -118,6 +120,8 @@ class IO(object):
         log.encrypt(self.socket, context)
         try:
             self.socket = context.wrap_socket(self.socket, server_side=True)
+            # Nothing received in clear text may be used after the handshake.
+            self.recv_buffer = b''
             return True
         except SSLError as exc:
             log.error(self.socket, exc, self.address)
